@@ -114,6 +114,16 @@ def pyNonBlank : Option Str → Bool
   | none => false
   | some s => s.any fun c => !isPySpace c
 
+/-- the test `_serialize_element` applies before writing `element.text`:
+`element.text and (len(element) == 0 or element.text.strip())` — the text of a childless element is
+content and is written whatever it consists of; between children only non-blank text is.
+(Before the repair the test was `(element.text or "").strip()`, which dropped a body of `" "`.) -/
+def textWritten (text : Option Str) (noKids : Bool) : Bool :=
+  match text with
+  | none => false
+  | some [] => false
+  | some _ => noKids || pyNonBlank text
+
 /-- `text.split("\n")` (never empty) -/
 def splitNl : Str → List Str
   | [] => [[]]
@@ -304,8 +314,8 @@ def serElem (ll : Nat) (pns : List (Str × Str)) (isRoot : Bool) (indent pos : N
     if text.isNone && kids.isEmpty && !alwaysExpanded tag then
       ('<' :: tagS ++ a.1 ++ "/>".toList, a.2 + 2)
     else
-      let t := if pyNonBlank text then serText escapeContent true text a.2 else ([], a.2)
-      let k := serKids ll nsmap (indent + 1) tail t.2 (pyNonBlank text) kids
+      let t := if textWritten text kids.isEmpty then serText escapeContent true text a.2 else ([], a.2)
+      let k := serKids ll nsmap (indent + 1) tail t.2 (textWritten text kids.isEmpty) kids
       let c : Str × Nat :=
         if !kids.isEmpty && !k.2.2 then ('\n' :: ind indent, 2 * indent) else ([], k.2.1)
       ('<' :: tagS ++ a.1 ++ '>' :: t.1 ++ k.1 ++ c.1 ++ '<' :: '/' :: tagS ++ ['>'],
